@@ -3,6 +3,7 @@ from __future__ import annotations
 
 from .. import model as M
 from .. import programs as P
+from .. import findings
 from ..harness import Part
 from ..signatures import close
 
@@ -88,8 +89,9 @@ def check_indices(ctx, circ, what, facts, increasing: bool):
         last = {}
         for i, (q, s) in enumerate(zip(qubits, starts)):
             if q in last and s < last[q] - 1e-9:
+                extra = facts.get("lazy")() if callable(facts.get("lazy")) else {}
                 ctx.fail("index-vs-time", f"{what}: qubit {q}: measurement with per-qubit index {exp[i][1]} starts at {s}, "
-                         f"before its predecessor ({last[q]})", facts)
+                         f"before its predecessor ({last[q]})", dict({k: v for k, v in facts.items() if k != "lazy"}, **extra))
                 break
             last[q] = s
     return ms
@@ -145,7 +147,24 @@ def body(case, ctx):
     if not explicit:
         with ctx.lib("overlap check"):
             inc = overlap_free(mod)
-    ms = check_indices(ctx, mod, "unrolled", facts, increasing=inc)
+
+    def placement_follows_the_documented_rule():
+        """Evaluated only when the time-order clause fails: does the library place every operation exactly as the
+        placement rule of C01 says (reference model: deepest earlier operation sharing a channel)?  Then the schedule
+        is the specified one and the clause fails because of the rule, not because of how it is implemented."""
+        from .. import observe as O
+        try:
+            root = M.build(program)
+            twin = P.build(program)
+            twin.circuit.operations
+            mapping = O.match(root, twin.circuit.circuit_structure, program.get("g"), program.get("dreg", {}))
+            M.schedule(root, program.get("g"), program.get("dreg", {}))
+            ok = all(abs(float(mapping[id(n)].start_time) - n.start) < 1e-9 for n in root.all_nodes() if id(n) in mapping)
+            multi = any(len(it["q"]) >= 2 for _, it in leaves)
+            return {"placement_as_documented": bool(ok), "multi_qubit_operation": multi, "no_repetition": st["n_reps_gt1"] == 0}
+        except Exception as e:        # noqa: BLE001
+            return {"placement_as_documented": False, "model_error": type(e).__name__}
+    ms = check_indices(ctx, mod, "unrolled", dict(facts, lazy=placement_follows_the_documented_rule), increasing=inc)
     if ms is None or not case["late"]:
         return
     # a measurement added after unrolling, through the returned circuit
@@ -208,3 +227,13 @@ def parts():
         Part("programs", body, strategy=strat, quick=1200, thorough=4000),
         Part("library", body_library, items=items_library),
     ]
+
+
+@findings.predicate("c07_depth_based_placement_orders_indices_against_time")
+def _pred_depth_placement(case, facts) -> bool:
+    """An operation without relation is placed behind the DEEPEST earlier operation sharing a channel (C01), which need
+    not be the one that ends last; with a multi-qubit operation (barrier, two-qubit gate) joining a short deep chain and a
+    long shallow one, a later-added measurement is then listed - and indexed - after an earlier-added one although it
+    starts before it, without any channel overlap.  Signature: no repetition involved, a multi-qubit operation present,
+    and the library's schedule is exactly the one the documented placement rule gives."""
+    return bool(facts.get("placement_as_documented") and facts.get("multi_qubit_operation") and facts.get("no_repetition"))
